@@ -590,6 +590,94 @@ def make_jobs(cases, route):
     return jobs
 
 
+# ----------------------------------------------------------------------------- chains of two operators (round 7)
+# `(x op1 c1) op2 c2` with LITERAL c1, c2 and x at the edge of its kind: the intermediate result decides — a chain that
+# overflows at the first step fails even if the "net" change is zero (`x + 1 - 1` at the maximum).  One program per
+# chain (a failure ends the program); expectation = the exact model applied twice.
+
+def chain_cases():
+    out = []
+    edges = {"int": [N.RANGE["int"][1], N.RANGE["int"][1] - 1, N.RANGE["int"][0], N.RANGE["int"][0] + 1, 0, -1, 7],
+             "bigint": [N.RANGE["bigint"][1], N.RANGE["bigint"][0], N.RANGE["bigint"][1] - 1, 5],
+             "byte": [0, 1, 255, 254, 128]}
+    lits = {"int": [("int", 1), ("int", 2), ("bigint", 1), ("byte", 1)], "bigint": [("bigint", 1), ("int", 1), ("byte", 2)],
+            "byte": [("byte", 1), ("byte", 2), ("int", 1)]}
+    for kind, xs in edges.items():
+        for x in xs:
+            for c1 in lits[kind]:
+                for c2 in lits[kind]:
+                    for op1, op2 in (("+", "-"), ("-", "+"), ("+", "+"), ("-", "-"), ("*", "/"), ("/", "*")):      # same precedence: left to right
+                        out.append(((kind, x), op1, c1, op2, c2))
+    return out
+
+
+def chain_expected(case):
+    x, op1, c1, op2, c2 = case
+    r1 = N.binop(op1, x, c1)
+    if r1[0] != "ok":
+        return r1
+    return N.binop(op2, (r1[1], r1[2]), c2)
+
+
+def chain_job(cases):
+    """Cases expected to succeed are batched; each expected failure runs alone."""
+    res = {"compared": 0, "violations": [], "inconclusive": []}
+    lines = ['print "@@POOL"']
+    for i, (x, op1, c1, op2, c2) in enumerate(cases):
+        lines.append("cx%d = %s" % (i, N.source(*x)))
+    lines.append('print "@@CASES"')
+    for i, (x, op1, c1, op2, c2) in enumerate(cases):
+        lines.append("print cx%d %s %s %s %s" % (i, op1, N.source(*c1), op2, N.source(*c2)))
+    lines.append('print "@@END"')
+    src = "\n".join(lines) + "\n"
+    r, _, _ = core.run_program({"main.ms": src}, typed=True, cpu=20)
+    if r.cls in ("wall_timeout", "cpu_timeout", "spawn_error"):
+        res["inconclusive"].append("chain batch: %s" % r.cls)
+        return res
+    if core.compile_rejected(r):
+        res["inconclusive"].append("chain batch rejected by the compiler: %s" % (r.out + r.err)[-300:])
+        return res
+    out_lines = r.lines()
+    try:
+        got = out_lines[out_lines.index("«Str» @@CASES") + 1:]
+    except ValueError:
+        res["inconclusive"].append("chain batch: no @@CASES marker")
+        return res
+    for i, case in enumerate(cases):
+        exp = chain_expected(case)
+        x, op1, c1, op2, c2 = case
+        text = "%s %s %s %s %s" % (N.source(*x), op1, N.source(*c1), op2, N.source(*c2))
+        sig_mid = "chain:%s%s:%s" % (op1, op2, x[0])
+        if exp[0] == "ok":
+            if i >= len(got) or got[i] == "«Str» @@END":
+                res["violations"].append({"sig": "C05:%s:unexpected_failure" % sig_mid, "what": "`%s` with the left operand in a variable stopped, the exact result is %s %s" % (text, exp[1], exp[2]),
+                                          "witness": {"files": {"main.ms": src}, "expression": text, "expected": [exp[1], str(exp[2])], "run": r.brief()}})
+                break
+            try:
+                pv = N.parse_printed(got[i])
+            except ValueError:
+                pv = ("?", got[i])
+            res["compared"] += 1
+            if pv[0] != exp[1] or not N.same_value(exp[1], pv[1], exp[2]):
+                res["violations"].append({"sig": "C05:%s:wrong_value_or_kind" % sig_mid, "what": "`%s`: expected %s %s, printed %r" % (text, exp[1], exp[2], got[i]),
+                                          "witness": {"files": {"main.ms": src}, "expression": text, "expected": [exp[1], str(exp[2])], "printed": got[i], "run": r.brief()}})
+        else:
+            # a single-case program: nothing may be printed for it
+            res["compared"] += 1
+            if i < len(got) and got[i] != "«Str» @@END" and r.cls == "ok" or (i < len(got) and got[i].startswith("«") and not got[i].startswith("«Str» @@")):
+                res["violations"].append({"sig": "C05:%s:value_instead_of_failure" % sig_mid, "what": "`%s`: %s — but a value was produced: %r" % (text, exp[1], got[i]),
+                                          "witness": {"files": {"main.ms": src}, "expression": text, "expected": "failure: " + exp[1], "printed": got[i], "run": r.brief()}})
+    return res
+
+
+def chain_jobs():
+    ok, fail = [], []
+    for c in chain_cases():
+        (ok if chain_expected(c)[0] == "ok" else fail).append(c)
+    jobs = [ok[i:i + 60] for i in range(0, len(ok), 60)] + [[c] for c in fail]
+    return jobs, len(ok), len(fail)
+
+
 def run(ctx):
     out = core.Outcome()
     matrix = matrix_cases(ctx.quick)
@@ -619,6 +707,21 @@ def run(ctx):
             out.inconclusive.append(str(res)[-500:])
             continue
         merge(total, res)
+    cj, n_ok, n_fail = chain_jobs()
+    chain_res = core.pmap(chain_job, cj, chunksize=4)
+    chain_cmp = 0
+    for status, res in chain_res:
+        if status != "ok":
+            out.inconclusive.append(str(res)[-300:])
+            continue
+        chain_cmp += res["compared"]
+        out.inconclusive.extend(res["inconclusive"])
+        for v in res["violations"]:
+            v.setdefault("rank", 0)
+            v["witness"].setdefault("left", v["witness"].get("expression"))
+            total["violations"].append(v)
+    total["compared"] += chain_cmp
+    out.coverage["two_operator_chains"] = {"expected_value": n_ok, "expected_failure": n_fail, "compared": chain_cmp}
     out.evaluations = total["compared"]
     out.distinct = set(total["hashes"])
     out.inconclusive.extend(total["inconclusive"])
